@@ -2,7 +2,7 @@
 From Coq Require Import List String Ascii ZArith. Import ListNotations.
 From Coq Require Import List Bool.
 From SV Require Import Lib.Str Model.Types Model.Naming Model.Api Model.Back Proofs.GenProofs.
-From SV Require Import Model.FrontSmall Model.View Model.Front Proofs.WalkProofs.
+From SV Require Import Model.FrontSmall Model.View Model.Front Proofs.WalkProofs Proofs.AttrProofs.
 
 (* the attribute block contains one entry per public attribute (type-variable attributes excepted), no more *)
 Theorem C03_class_attributes_once : forall classes rmap nc ats inner acc names s r s',
@@ -42,7 +42,19 @@ Theorem C03_front_class_inventory : forall al d pref_doc warn st c st' w top res
     map c_name (c_classes cl) = map cd_name (member_classes (class_walked c)) /\
     map c_id (c_classes cl) = map (fun x => c_id cl ++ K"/" ++ cd_name x) (member_classes (class_walked c)).
 Proof. exact class_inventory. Qed.
+(* attributes: for every view, every class of the result - in the module trees and in the flat class dictionary, at any nesting
+   depth (cls_ok is the deep predicate) - lists at most one attribute per name: the first definition wins across statements
+   and within one statement (level = level = 1 was registered twice before fix e8e6187) *)
+Theorem C03_front_attribute_names_unique : forall v o, front v = Ok o ->
+  Forall (fun m => Forall cls_ok (m_classes m)) (api_modules (o_api o)) /\
+  Forall (fun kv : str * cls => cls_ok (snd kv)) (api_classes (o_api o)).
+Proof. exact front_attribute_names_unique. Qed.
+(* what cls_ok says, one level unfolded *)
+Theorem C03_cls_ok_unfolded : forall c, cls_ok c -> NoDup (map a_name (c_attrs c)) /\ Forall cls_ok (c_classes c).
+Proof. exact cls_ok_unfolded. Qed.
 Print Assumptions C03_class_attributes_once.
 Print Assumptions C03_class_methods.
 Print Assumptions C03_front_module_inventory.
 Print Assumptions C03_front_class_inventory.
+Print Assumptions C03_front_attribute_names_unique.
+Print Assumptions C03_cls_ok_unfolded.
